@@ -1,11 +1,12 @@
 import N2k.Lemmas.HeartbeatShift
 import N2k.Lemmas.HeartbeatRoll
+import N2k.Lemmas.Time32DevList
 /-!
 # C13 — Timed behaviour is independent of the clock origin, including the 32-bit wrap
 
 Primitives: `Basic/Time.lean` (`N2kIsTimeBefore`, `N2kHasElapsed`, `tN2kScheduler` in the 32-bit and the 64-bit
 flavour). Machines: the send path / open machine / address-claim timer of `Model/Send.lean` and the heartbeat machine of
-`Model/Heartbeat.lean`. The shift of a state (`St.shift`, `HSt.shift`) moves the clock and every stored deadline by `k`
+`Model/Heartbeat.lean`, and the request pacing of the device list (`Model/DeviceList.lean`). The shift of a state (`St.shift`, `HSt.shift`) moves the clock and every stored deadline by `k`
 (modulo 2^32 on the 32-bit build; "disabled" stays "disabled").
 
 The scheduler's documented 1 ms slack: a 32-bit `FromNow(d)` whose result would be the all-ones "disabled" value is
@@ -83,11 +84,11 @@ times. Hypotheses: the initial stored deadlines do not collide with the sentinel
 step the clock is not at one of the (three per 49.7 days) instants where a 32-bit `FromNow` lands on the sentinel, and
 the shifted 64-bit clock stays clear of 2^64 (`ClocksOk`).
 
-`_partial`: covers the machines modelled so far (send path, open machine, address-claim timer, heartbeat and
-synchronised scheduler). Not covered here: reassembly-slot ageing, ISO-TP, pending-information timers and the device
-list (other properties' models; the structural obligation `time_sites` pins every clock read of the library to the
-primitives of `C13_primitives_elapsed_only`), and the one known absolute-time dependence `C13:devlist-zero-sentinel`
-(`C13_devlist_zero_sentinel_witness`). -/
+`_partial`: covers the node machines modelled here (send path, open machine, address-claim timer, heartbeat and
+synchronised scheduler); the device list's request pacing has its own unconditional theorem
+`C13_shift_invariance_devlist`. Not covered by a shift theorem: reassembly-slot ageing, ISO-TP and pending-information
+timers (other properties' models) and the rest of `tN2kDeviceList::HandleMsg`; the structural obligation `time_sites`
+pins every clock read of the library to the primitives of `C13_primitives_elapsed_only`. -/
 theorem C13_shift_invariance_partial (k : Nat) (h : HSt) (ops : List Op) (ho : h.ShiftOk k) (hc : ClocksOk k h ops) :
     run (h.shift k) ops = ((run h ops).1.shift k, (run h ops).2) ∧
     (run (h.shift k) ops).1.st.drv = (run h ops).1.st.drv ∧
@@ -113,16 +114,24 @@ theorem C13_roll_counter (r : Roll) (t e : Nat) (ts : List Nat) (hr : r.Tracks t
 /-- the initial static state (`RollCount=0`, `LastRead=0`) tracks time 0 with no extra epochs: exact from process start -/
 theorem C13_roll_counter_init : ({} : Roll).Tracks 0 0 := ⟨rfl, rfl⟩
 
-/-- **Known origin dependence (open finding `C13:devlist-zero-sentinel`).** The device list stores 0 for "never
-requested" and asks `N2kHasElapsed(0, 1000)`: that is a comparison against an ABSOLUTE stamp which an origin shift does
-not move. Witness: 5 s after a start at origin 0 the test passes, 5 s after a start at origin 2^31 it fails (and keeps
-failing for 2^31 ms ≈ 24.8 days). -/
-theorem C13_devlist_zero_sentinel_witness :
-    hasElapsed 0 1000 5000 = true ∧ hasElapsed 0 1000 (2147483648 + 5000) = false ∧
-    (∀ t, t < 2147483647 → hasElapsed 0 1000 (2147483648 + 1000 + t) = false) := by
-  refine ⟨by decide, by decide, ?_⟩
-  intro t ht
-  unfold hasElapsed sub32 M32 INT32_MAX; simp only [decide_eq_false_iff_not]; omega
+/-- **Shift invariance of the device list's request pacing** (`tN2kDeviceList`: `ReadyForRequest…`,
+`Set…Requested`, the three request loops and `HandleOther` as a whole — ISO requests for product information,
+configuration information and PGN lists, and the NAME request), for EVERY shift `k`, every list state, every
+environment, without any side condition (the device list uses `N2kHasElapsed` only, there is no sentinel):
+the step from the shifted state (`DeviceList.State.shift`: creation / last-message stamps and every request stamp whose
+counter is non-zero moved by `k` modulo 2^32; a never-used stamp keeps its constant 0, exactly as in a real run from
+another origin) at the shifted clock yields the shifted state, the same `return` flag, the same faults and the same
+requests on the bus (`out`). This is the code as repaired in /repo f104fb3 (finding `C13:devlist-zero-sentinel`, now
+fixed): before, the constant stamp 0 was compared with the clock. -/
+theorem C13_shift_invariance_devlist (k : Nat) (e : DeviceList.Env) (s : DeviceList.State) :
+    (∀ kd d, DeviceList.ready (e.shift k) kd (d.shift k) = DeviceList.ready e kd d) ∧
+    (∀ kd d, DeviceList.markRequested (e.shift k) kd (d.shift k) = (DeviceList.markRequested e kd d).shift k) ∧
+    (∀ kd n i, DeviceList.reqLoop (e.shift k) kd n i (s.shift k) =
+        (DeviceList.reqLoop e kd n i s).map fun r => (r.1.shift k, r.2)) ∧
+    (∀ m, DeviceList.handleOther (e.shift k) (s.shift k) m = (DeviceList.handleOther e s m).map (DeviceList.State.shift k)) ∧
+    (s.shift k).out = s.out :=
+  ⟨fun kd d => DeviceList.ready_shift k e kd d, fun kd d => DeviceList.markRequested_shift k e kd d,
+   fun kd n i => DeviceList.reqLoop_shift k e kd n i s, fun m => DeviceList.handleOther_shift k e s m, rfl⟩
 
 /-! ## non-vacuity of the hypotheses -/
 
@@ -151,6 +160,20 @@ example : (exampleNode .t32 (M32 - 1000)).ShiftOk 2147483648 ∧
   · intro b hb; simp [exampleNode] at hb; subst hb; exact ⟨Or.inl rfl, by decide, by decide⟩
   · refine ⟨⟨by decide, by decide⟩, trivial, ⟨by decide, by decide⟩, trivial, ⟨by decide, by decide⟩, trivial,
       ⟨by decide, by decide⟩, trivial, ⟨by decide, by decide⟩, trivial, trivial⟩
+
+/-- device list, origin in the upper half of the 32-bit range: an entry created at clock 1000 that has never been asked
+is ready for its first product-information request exactly 1000 ms later, and so is the same entry in the run whose
+clock is 2^31+5000 ms ahead (`Device.shift` leaves the never-used stamp at 0); one millisecond earlier neither is -/
+example :
+    let e0 : DeviceList.Env := { now := 1000, canSend := true, junkTime := 0, junkMem := fun _ => 0 }
+    let d := DeviceList.Device.new e0 7
+    let k := 2147483648 + 5000
+    (d.shift k).createTime = 2147483648 + 6000 ∧ (d.shift k).prodIRequested = 0 ∧
+    DeviceList.ready { e0 with now := 2000 } .prod d = true ∧
+    DeviceList.ready (DeviceList.Env.shift k { e0 with now := 2000 }) .prod (d.shift k) = true ∧
+    DeviceList.ready { e0 with now := 1999 } .prod d = false ∧
+    DeviceList.ready (DeviceList.Env.shift k { e0 with now := 1999 }) .prod (d.shift k) = false := by
+  refine ⟨by decide, by decide, by decide, by decide, by decide, by decide⟩
 
 /-- the sampling hypothesis of the roll counter: start at 2^32-10, samples across the wrap -/
 example : Sampled 0 [4294967286, 4294967290, 4294967300, 5000000000] ∧
